@@ -114,6 +114,15 @@ template <int S> struct Runner {
     const Mat *ups[4] = {&A, &B, &Z, &U}; const Eigen::VectorXd *upt[4] = {&a, &b, &z, &z};
     Grads fresh[4];
     for (int k = 0; k < 4; ++k) { Sp s = build<S, D>(p); fresh[k] = s.propagateGrad(*ups[k], *upt[k]); }
+    // the reference-output overload handed a caller object that last held a LARGER problem's result (shapes must shrink, nothing may survive),
+    // and called IN PLACE (the caller's g.times is both the upstream duration gradient and the output): both equal the by-value result bitwise
+    // (seeded changes C05-m10 / C05-m9)
+    { Sp s0 = build<S, D>(p);
+      for (int k = 0; k < 4; ++k) { Grads used; used.inner_points = Mat::Constant(N + 1, D, 7.5); used.times = Eigen::VectorXd::Constant(N + 2, -7.5); used.start.p.setConstant(7.5); used.start.v.setConstant(7.5); used.end.p.setConstant(7.5); used.end.v.setConstant(7.5);
+        s0.propagateGrad(*ups[k], *upt[k], used); ++c.st.comparisons;
+        if (used.inner_points.rows() != std::max(0, N - 1) || used.times.size() != N || !grads_bits_equal(used, fresh[k])) { fail("adjoint-overload", p, fmt("reference overload handed a Gradients object that last held a larger problem: shape %ldx%ld / %ld or values differ from the by-value result (upstream #%d)", (long)used.inner_points.rows(), (long)used.inner_points.cols(), (long)used.times.size(), k)); return; }
+        Grads inpl; inpl.times = *upt[k]; s0.propagateGrad(*ups[k], inpl.times, inpl); ++c.st.comparisons;
+        if (!grads_bits_equal(inpl, fresh[k])) { fail("adjoint-overload", p, fmt("reference overload called in place (g.times is the upstream duration gradient and the output) differs from the by-value result (upstream #%d)", k)); return; } } }
     // every sequence of length <= 3 of earlier calls, then each upstream: must equal the fresh object's result bitwise
     Sp sp = build<S, D>(p);
     for (int len = 0; len <= 3; ++len) {
